@@ -325,6 +325,15 @@ fn api_tag<P: RcObject + std::fmt::Debug + 'static>(mk: impl Fn(u64) -> P, val_o
         if format!("{:p}", s1) != p0 || format!("{:?}", s1) != format!("{:?}", rc) {
             fail11b("snapshot-format", format!("{{:p}}/{{:?}} of the loaded snapshot differ: {:p} vs {}", s1, p0));
         }
+        // exclusive dereference must strip tag and epoch bits exactly like the shared one (addresses
+        // are only compared, never accessed)
+        unsafe {
+            let m1 = s1.as_mut().map(|p| p as *mut P as usize);
+            let m2 = s1.deref_mut() as *mut P as usize;
+            if m1 != Some(base) || m2 != base {
+                fail11b("snapshot-deref_mut-address", format!("Snapshot::as_mut/deref_mut yield {:#x?}/{:#x}, the shared dereference yields {:#x} (write epoch {})", m1, m2, base, e1));
+            }
+        }
         let s1b = s1.with_tag(t2);
         if s1b.tag() != t2 & mask || s1b.as_ref().map(|p| p as *const P as usize) != Some(base) {
             fail11b("snapshot-retag", "Snapshot::with_tag corrupted tag or address".into());
@@ -356,6 +365,24 @@ fn api_tag<P: RcObject + std::fmt::Debug + 'static>(mk: impl Fn(u64) -> P, val_o
         }
         if rc2.as_ref().map(|p| p as *const P as usize) != Some(base) {
             fail11b("deref-across-epochs", "dereference depends on the write epoch".into());
+        }
+        {
+            let mut tmp = rc2.clone().with_tag(t2);
+            let (m1, m2, m3) = unsafe {
+                (
+                    tmp.as_mut().map(|p| p as *mut P as usize),
+                    tmp.deref_mut() as *mut P as usize,
+                    tmp.deref() as *const P as usize,
+                )
+            };
+            if m1 != Some(base) || m2 != base || m3 != base {
+                fail11b("rc-deref_mut-address", format!("Rc::as_mut/deref_mut/deref yield {:#x?}/{:#x}/{:#x}, as_ref yields {:#x} (write epoch {}, tag {:#x})", m1, m2, m3, base, e2, t2));
+            }
+            let s2m = s2.with_tag(t2);
+            let (n1, n2) = unsafe { (s2m.deref_mut() as *mut P as usize, s2m.deref() as *const P as usize) };
+            if n1 != base || n2 != base {
+                fail11b("snapshot-deref_mut-address", format!("Snapshot::deref_mut/deref yield {:#x}/{:#x}, as_ref yields {:#x} (write epoch {})", n1, n2, base, e2));
+            }
         }
         let w2 = rc2.downgrade();
         if !w2.ptr_eq(&w1) || w2.tag() != w1.tag() || format!("{:p}", w2) != format!("{:p}", w1) || format!("{:?}", w2) != d1 {
